@@ -9,7 +9,7 @@ Single steps (scripted or real driver answers):
   `stepP <cur> <recv> <prov> <send01> <upd01> <submit: ok|exists|other|real0|real1>`
   `stepR <cur> <recv> <prov> <send01> <validate: 0|1|real> <expect: 0|1|realN|realP>`
 Whole runs (composites of the model's small steps, see `PoolModel/C16.lean`):
-  `reset` | `dlv P|R i` | `rerr P|R` | `restart P|R` | `crash P|R i k` | `fin P|R st` | `finrace P|R st i`
+  `reset` | `dlv P|R i` | `rerr P|R` | `restart P|R` | `crash P|R i k` | `fin P|R st` | `race P|R a b st bf|fb`
 -/
 namespace Pool.C16
 open Pool.Util
@@ -111,7 +111,7 @@ def newEffs (before after : Sys) : List (Bool × Eff) :=
   (after.log.take (after.log.length - before.log.length)).reverse
 
 def sumTok (before after : Sys) : String :=
-  let es := newEffs before after
+  let es := (newEffs before after).filter (fun pe => pe.2 != Eff.spawnFin)
   let et := if es.isEmpty then "-" else
     joinWith "," (es.map fun (p, e) => (if p then "P" else "R") ++ "." ++ effTok e)
   s!"{et}|P={partyTok after.p} R={partyTok after.r} bids={after.bids}{if after.panicked then " PANIC" else ""}"
@@ -158,6 +158,16 @@ def crashRun (prov : Bool) : Nat → Nat → Sys → Sys
           else restart prov (settle prov 8 s)
         | _ => s
       else restart prov (settle prov 8 s)
+
+/-- finish the provider's stateUpdateLoop (no new packet is taken) -/
+def finishLoop (prov : Bool) : Nat → Sys → Sys
+  | 0, s => s
+  | fuel + 1, s =>
+    if (getParty s prov).loopPkt.isSome && (getParty s prov).alive && !s.panicked then
+      match apply s (.proc prov) with
+      | some s' => finishLoop prov fuel s'
+      | none => s
+    else s
 
 def parseSide (s : String) : Option Bool := if s == "P" then some true else if s == "R" then some false else none
 
@@ -218,20 +228,31 @@ def drvStep (st : DrvSt) (args : List String) : DrvSt × String :=
       | none => (st, "not-enabled")
       | some s1 => let s2 := settle prov 8 s1; ({ sys := s2 }, sumTok s0 s2)
     | _, _ => (st, "bad-op")
-  | ["finrace", side, fs, i] =>
-    -- a ticket reaches packetChan while the finalization branch runs; the loop returns after the branch
-    -- (or, where it does not, this driver lets it observe quit first), so the packet is never handled
-    match parseSide side, fs.toNat?, i.toNat? with
-    | some prov, some fs, some i =>
+  | ["race", side, a, b, fs, ord] =>
+    -- ticket `a` is handled; while its handler runs ticket `b` reaches packetChan and a local
+    -- TicketExecuted(fs,false) waits for the hand-off. `bf`: the loop takes `b`, then the finalization;
+    -- `fb`: the finalization first - the loop then returns and `b` is never handled.
+    match parseSide side, a.toNat?, b.toNat?, fs.toNat? with
+    | some prov, some a, some b, some fs =>
       let s0 := st.sys
-      if ((if prov then s0.toP else s0.toR)[i]?).isNone then (st, "not-enabled") else
-      match apply s0 (.finalize prov fs) with
+      let ms := if prov then s0.toP else s0.toR
+      if ms[a]?.isNone || ms[b]?.isNone || !(getParty s0 prov).alive then (st, "not-enabled") else
+      match apply s0 (.deliver prov a) with
       | none => (st, "not-enabled")
       | some s1 =>
-        let s2 := tryAct s1 (.deliver prov i)
-        let s3 := tryAct s2 (.quit prov)
-        ({ sys := s3 }, sumTok s0 s3)
-    | _, _, _ => (st, "bad-op")
+        let s2 := tryAct s1 (.proc prov)          -- the loop takes `a` out of packetChan
+        let s3 := tryAct s2 (.deliver prov b)     -- `b` is buffered
+        if ord == "bf" then
+          let s4 := settle prov 16 s3
+          let s5 := settle prov 8 (tryAct s4 (.finalize prov fs))
+          ({ sys := s5 }, sumTok s0 s5)
+        else if ord == "fb" then
+          let s4 := finishLoop prov 8 s3
+          let s5 := tryAct s4 (.finalize prov fs)
+          let s6 := tryAct s5 (.quit prov)
+          ({ sys := s6 }, sumTok s0 s6)
+        else (st, "bad-op")
+    | _, _, _, _ => (st, "bad-op")
   | _ => (st, "bad-op")
 
 end Pool.C16
